@@ -47,6 +47,7 @@ func (c07) Gates(tier string, m map[string]int64) []rt.Gate {
 		rt.GateMin("mixed int/float sort column", m, "mixed_int_float_column", 10),
 		rt.GateMin("lone `order by key asc` (elided sort)", m, "lone_key_asc", 50),
 		rt.GateMin("row mode", m, "mode:row", 500), rt.GateMin("batch mode", m, "mode:batch", 500),
+		rt.GateMin("stores with integers beyond 2^53", m, "bigint_store", 100), rt.GateMin("IN-list (point read) filters", m, "in_list_where", 200),
 	}
 }
 
@@ -89,6 +90,19 @@ var c07Families = []string{gen.FTies, gen.FTies, gen.FNum, gen.FNum, gen.FFloat,
 func (k c07) Run(c *rt.Ctx) {
 	r := c.R
 	st := gen.NewStore(r, c07Families[r.Intn(len(c07Families))])
+	bigint := false
+	if r.Chance(1, 10) {
+		// integers beyond 2^53 that differ by less than float64 precision, and near the int64 limits
+		base := []int64{9007199254740992, 9223372036854775800, -9007199254740992, 4611686018427387904}[r.Intn(4)]
+		n := r.Range(4, 12)
+		var ps []refstore.Pair
+		for i := 0; i < n; i++ {
+			ps = append(ps, refstore.Pair{K: fmt.Sprintf("k%02d", i), V: fmt.Sprint(base + int64((i*5)%7) - 3)})
+		}
+		st = &gen.Store{Family: gen.FNum, Pairs: ps}
+		c.Rec.Inc("bigint_store")
+		bigint = true
+	}
 	stmt := &gen.Stmt{Kind: "select"}
 	var fields []c07Field
 	aggregate := r.Chance(1, 4)
@@ -155,6 +169,24 @@ func (k c07) Run(c *rt.Ctx) {
 	default:
 		stmt.Where = gen.Bin(">=", gen.Call("strlen", gen.Value()), gen.Int(int64(r.Intn(2))))
 	}
+	if !aggregate && len(st.Pairs) > 0 && r.Chance(1, 5) {
+		// point reads over an IN list written in arbitrary order (optionally with a residual predicate)
+		n := r.Range(2, 6)
+		items := make([]*gen.Node, 0, n)
+		for i := 0; i < n; i++ {
+			k := st.Pairs[r.Intn(len(st.Pairs))].K
+			if gen.Printable(k) {
+				items = append(items, gen.Str(k))
+			}
+		}
+		if len(items) > 0 {
+			stmt.Where = gen.In(gen.Key(), items...)
+			if r.Bool() {
+				stmt.Where = gen.And(stmt.Where, gen.Bin("!=", gen.Value(), gen.Str("nope")))
+			}
+			c.Rec.Inc("in_list_where")
+		}
+	}
 	// ORDER BY
 	nk := r.Range(1, 3)
 	if !aggregate && r.Chance(1, 12) {
@@ -169,6 +201,16 @@ func (k c07) Run(c *rt.Ctx) {
 			seen[f.name] = true
 			desc := r.Bool()
 			stmt.OrderBy = append(stmt.OrderBy, gen.OrderItem{Name: f.name, Desc: desc, Bare: !desc && r.Bool()})
+		}
+	}
+	if bigint && !aggregate {
+		// the big integers are the first sort key
+		f := c07Field{gen.Call("int", gen.Value()), "big", 'N'}
+		fields = append(fields, f)
+		stmt.Fields = append(stmt.Fields, gen.Field{E: f.e, Alias: f.name})
+		stmt.OrderBy = append([]gen.OrderItem{{Name: "big", Desc: r.Bool()}}, stmt.OrderBy...)
+		if len(stmt.OrderBy) > 3 {
+			stmt.OrderBy = stmt.OrderBy[:3]
 		}
 	}
 	tps := map[string]byte{}
